@@ -83,6 +83,14 @@ inline Registry& registry()
 
 enum TrackedPolicy { kCopyMove = 0, kMoveOnly = 1, kCopyOnly = 2 };
 constexpr int kMovedFrom = -777;
+constexpr int kSelfMoved = -555;
+// opt-in (per harness): self-move-assignment damages the element.  Only final values may be judged with it: a move-based self-swap
+// (tmp = move(a); a = move(a); a = move(tmp)) passes through the damaged state and ends with the right value.
+inline bool& self_move_poisons()
+{
+    static bool b = false;
+    return b;
+}
 constexpr int kDeadValue = -999;
 
 template <int Policy, int Family = 0>
@@ -125,6 +133,8 @@ struct Tracked<kCopyMove, Family> {
             v   = o.v;
             o.v = kMovedFrom;
             registry().set_value(&o, kMovedFrom);
+        } else if (self_move_poisons()) {
+            v = kSelfMoved; // like a handle that releases its resource before taking the source's: x = move(x) leaves an emptied object
         }
         registry().set_value(this, v);
         return *this;
@@ -171,6 +181,8 @@ struct Tracked<kMoveOnly, Family> {
             v   = o.v;
             o.v = kMovedFrom;
             registry().set_value(&o, kMovedFrom);
+        } else if (self_move_poisons()) {
+            v = kSelfMoved; // like a handle that releases its resource before taking the source's: x = move(x) leaves an emptied object
         }
         registry().set_value(this, v);
         return *this;
